@@ -1854,7 +1854,8 @@ class NetCDFWrite(IOWrite):
         array = self.implementation.get_array(
             self.implementation.get_data(bounds)
         )
-        array = np.trim_zeros(np.ma.count(array, axis=2).flatten())
+        array = np.ma.count(array, axis=2).flatten()
+        array = array[array > 0]
         array = self._int32(array)
 
         data = self.implementation.initialise_Data(array=array, copy=False)
